@@ -239,7 +239,7 @@ Fixpoint do_hist (st : state) (toks : list string) (acc : list string) (k : bool
   end.
 
 (* handlers/icmp_spoofer ProcessPacket checks pkt.IP6().IsValid() first (repaired) *)
-Definition V4FIXED : bool := false.
+Definition V4FIXED : bool := true.
 
 Definition dispatch (kind : string) (args : list string) : string :=
   if String.eqb kind "ra" then
